@@ -13,3 +13,6 @@ package gcsemu
 //@ func fmtErrorfCode
 //@   property C04
 //@   ensures typeis(result, *httpError) && as(result, *httpError) != nil && fresh(result) && as(result, *httpError).code == httpCode
+
+// Injected callback: the logger does not touch emulator state.
+//@ typeinv purefunc GcsEmu.log
